@@ -707,12 +707,24 @@ def check_sym_case(case: dict[str, Any], col: common.Collector) -> None:
     except Exception:  # noqa: BLE001
         pass
     spreads: list[Any] = []
-    for val in vals:
+    from vf.oracle import compare as _cmp
+    for val, rb in zip(vals, base["runs"]):
         conc = symgen.instantiate(spec, val)
         try:
-            _r, sp, fragile, _p = ps.reference(conc, 0)
+            r_, sp, fragile, _p = ps.reference(conc, 0)
         except Exception:  # noqa: BLE001
-            sp, fragile = None, True
+            r_, sp, fragile = None, None, True
+        if not fragile and "outputs" in rb:
+            # as in the static case: the untagged kernel itself must agree with NumPy at
+            # this size (otherwise the case is C01's / C16's, not a tag's)
+            for name, got in rb["outputs"].items():
+                with np.errstate(all="ignore"):
+                    want = r_[name].astype(got.dtype) if name in r_ else None
+                if want is None or got.shape != want.shape or \
+                        not _cmp.close_ulps(got, want, 16.0, err=8.0 * sp[name]):
+                    fragile = True
+                    col.histo("sym_baseline_failed", "disagrees-with-numpy-at-size")
+                    break
         spreads.append(None if fragile else sp)
     if all(sp is None for sp in spreads):
         col.count("skipped_fragile")
